@@ -22,7 +22,7 @@ def gen_cases(rng, n):
             ops += ["ev", "alw", "until", "evT", "alwT", "untilT", "next"]
         if kind == "past":
             ops += ["evT", "alwT", "untilT", "next"]
-        g = Gen(rng, vars_=rng.choice([("x",), ("x", "y")]), S=S, ops=ops, ivs=[(0, 0), (0, 1), (1, 2), (0, 3), (2, 2), (0, 6)], bool_atoms=False)
+        g = Gen(rng, vars_=rng.choice([("x",), ("x", "y")]), S=S, ops=ops, ivs=[(0, 0), (0, 1), (1, 2), (0, 3), (2, 2), (0, 6)], bool_atoms=(kind == "past" or rng.random() < 0.3))
         for _ in range(40):
             phi = g.formula(rng.choice([2, 2, 3, 3]))
             if kind == "past" and (not (ops_of(phi) & FUT) or _c03.past_over_future(phi)):
@@ -32,6 +32,12 @@ def gen_cases(rng, n):
             break
         else:
             continue
+        if kind == "past" and rng.random() < 0.3:
+            # a bare variable next to a future operator: its name must keep denoting the supplied data after pastify()
+            f_ = un(rng.choice(["evT", "alwT"]), var(rng.choice(g.vars)), *rng.choice([(0, 1), (1, 2), (0, 2)]))
+            phi = bi(rng.choice(["and", "or"]), bi(rng.choice(["and", "or"]), f_, g.formula(1)), var(rng.choice(g.vars)))
+            if _c03.past_over_future(phi) or (ops_of(phi) & UNB_FUT):
+                continue
         vs = vars_of(phi) or ["x"]
         subs, main, cdecl, named = decompose(rng, phi, S, consts=False)
         if not named:
@@ -96,6 +102,47 @@ def main():
         rep.mc_violation("C12_named", r)
     rng = random.Random(core.seed() * 7919 + 12)
     cases = gen_cases(rng, 700 if quick else 12000)
+    # ---- dense time (offline, and online with one update): get_value of every name and variable
+    dcases = []
+    for i in range((700 if quick else 8000) // 3):
+        S = rng.choice([1, 2])
+        online = rng.random() < 0.4
+        ops = ["not", "and", "or", "implies", "once", "hist", "since", "onceT", "histT"] + ([] if online else ["ev", "alw", "until", "evT", "alwT", "untilT"])
+        g = Gen(rng, vars_=rng.choice([("x",), ("x", "y")]), S=S, ops=ops, ivs=[(0, 1), (1, 2), (0, 3)], bool_atoms=True)
+        for _ in range(30):
+            phi = g.formula(rng.choice([2, 2, 3]))
+            if vars_of(phi) and not any(q["op"] in BIN2 and not vars_of(q) for q in subformulas(phi)):
+                break
+        else:
+            continue
+        vs = vars_of(phi)
+        subs, main, cdecl, named = decompose(rng, phi, S, consts=False)
+        named = [(nm, q) for nm, q in named if vars_of(q)]
+        if not named or len(named) != len(subs):
+            continue
+        o1 = ct_obj(phi, S, vs)
+        o1["subs"] = [s_ + ";" for s_ in subs]
+        o1["text"] = "out = " + main
+        o1["names"] = dict([(nm, q) for nm, q in named] + [("out", phi)])
+        objs = [o1]
+        idx = {}
+        for nm, q in named:
+            objs.append(ct_obj(q, S, vs, names={}))
+            idx[nm] = len(objs)
+        end = rng.choice([3, 5, 8])
+        w = {v: gen_signal(rng, rng.choice([2, 3, 4]), t0=0, S=S, end=end) for v in vs}
+        act = "update" if online else "evaluate"
+        evs = [ev_parse(k + 1) for k in range(len(objs))] + [ev_ct(act, w, 1)]
+        evs += [ev_get(nm) for nm in [nm for nm, _ in named] + ["out"] + vs]
+        rels = []
+        for nm, k in idx.items():
+            evs.append(ev_ct(act, w, k))
+            rels.append({"rel": "get_fn", "x": 1, "y": k, "n": nm})
+        dcases.append(case(objs, evs, rels, kind="ct_on" if online else "ct_off"))
+    dtr = runner.run_cases(dcases)
+    dvs, dgen, ddist = core.validate("C12_dense", dtr, module="TraceCt")
+    rep.add_traces(dtr, dvs, dgen, ddist, nontrivial_key=lambda c: c["objs"][0]["text"] + str(c["objs"][0].get("subs")) + str(c["events"][len(c["objs"])]["w"]))
+    rep.extra["dense_cases"] = {k: sum(1 for c in dcases if c["kind"] == k) for k in ("ct_on", "ct_off")}
     traces = runner.run_cases(cases)
     vs_, gen, dist = core.validate("C12", traces)
     rep.add_traces(traces, vs_, gen, dist, nontrivial_key=lambda c: c["objs"][0]["text"] + str(c["objs"][0].get("subs")) + str([e.get("w", e.get("s")) for e in c["events"] if e["o"] == 1 and e["a"] in ("update", "evaluate")]))
